@@ -326,6 +326,11 @@ func genVmFields(repo string) (string, error) {
 	fmt.Fprintf(&sb, "def acquireAssigns : List String := %s\n", leanList(acqInfo.assigns))
 	fmt.Fprintf(&sb, "def prologueAssigns : List String := %s\n", leanList(prologueAssigns))
 	fmt.Fprintf(&sb, "def runReads : List String := %s\n", leanList(runReads))
+	roots := map[string]bool{}
+	for p := range runReads {
+		roots[strings.SplitN(p, ".", 2)[0]] = true
+	}
+	fmt.Fprintf(&sb, "def runReadRoots : List String := %s\n", leanList(roots))
 	fmt.Fprintf(&sb, "def releaseAssignsWholeVM : Bool := %v\n", releaseWhole)
 	fmt.Fprintf(&sb, "def releaseKeeps : List String := %s\n", leanList(releaseKeeps))
 	fmt.Fprintf(&sb, "def releaseResetsBytecode : Bool := %v\n", releaseBC)
